@@ -14,14 +14,14 @@
 (*      Schedules whose base is HopShaped carry kf = "hop-shaped-base".    *)
 (* Everything is serialised once, from an ASSUME.                          *)
 (***************************************************************************)
-EXTENDS ICS20, Json
+EXTENDS ICS20, Json, SequencesExt
 
 DN == INSTANCE Denom
 
 CONSTANTS MaxLen, BaseMaxLen, FullLen, Stride, Offset, BatchSize, Route2Every, OutDir
 
-RECURSIVE SeqOf(_)
-SeqOf(X) == IF X = {} THEN <<>> ELSE LET x == CHOOSE y \in X : TRUE IN <<x>> \o SeqOf(X \ {x})
+\* a sequence enumerating a finite set (SequencesExt!SetToSeq is evaluated without recursion)
+AsSeq(X) == SetToSeq(X)
 
 (***************************************************************************)
 (* (1) function table                                                      *)
@@ -96,14 +96,14 @@ Chunks(sq, n) == IF Len(sq) = 0 THEN <<>>
                  ELSE IF Len(sq) <= n THEN << sq >>
                  ELSE << SubSeq(sq, 1, n) >> \o Chunks(SubSeq(sq, n + 1, Len(sq)), n)
 
-PlainChunks == Chunks(SeqOf({ bs \in Bases : ~DN!HopShaped(bs) }), BatchSize)
-KfChunks    == Chunks(SeqOf({ bs \in Bases : DN!HopShaped(bs) }), BatchSize)
+PlainChunks == Chunks(AsSeq({ bs \in Bases : ~DN!HopShaped(bs) }), BatchSize)
+KfChunks    == Chunks(AsSeq({ bs \in Bases : DN!HopShaped(bs) }), BatchSize)
 
 Batches == [i \in 1..Len(PlainChunks) |-> Batch(PlainChunks[i], i, "")]
            \o [i \in 1..Len(KfChunks) |-> Batch(KfChunks[i], Len(PlainChunks) + i, "hop-shaped-base")]
 
-ASSUME JsonSerialize(OutDir \o "/paths.json", SeqOf(Paths))
-ASSUME JsonSerialize(OutDir \o "/escrow.json", SeqOf(EscrowPairs))
+ASSUME JsonSerialize(OutDir \o "/paths.json", AsSeq(Paths))
+ASSUME JsonSerialize(OutDir \o "/escrow.json", AsSeq(EscrowPairs))
 ASSUME JsonSerialize(OutDir \o "/batches.json", Batches)
 ASSUME PrintT(<<"CASES", Cardinality(Paths), Cardinality(EscrowPairs), Cardinality(Bases), Len(Batches)>>)
 =============================================================================
